@@ -72,6 +72,19 @@ CLAIMED['C06'] = dict(
     note='Trusted: TLC; json.loads equality as the round-trip projection.  Alignment is permitted, never required.',
     technique='TLC model checking of PrettyPrint.tla (scanner vs alignment rule) + TLC-judged lines recorded from the real prettyPrint / CLI')
 
+CLAIMED['C13'] = dict(
+    text='HexDump.tla transcribes hexdump() (layout arithmetic, chunking, padding), the line templates and parse() as a '
+         'per-character scanner with the code\'s break semantics, plus the two I/O-drawer formats.  TLC checks the round '
+         'trip, line count, equal width and offsets for every byte string of length <= 5 over 6 byte classes and every '
+         'layout <= 3x3, the default layout and both drawer formats on 20-byte strings, and pins the three literal line '
+         'formats.  The real hexdump / parse are run on every length 0..80 (+ a spread), boundary byte values, 400 '
+         '(thorough: all 65536) layouts, the three formats with short last lines and comment / blank lines, and '
+         '`peltool -x`; TLC judges each result (line count, width, offsets, spec-parse and real-parse give back the bytes).',
+    design='DESIGN.md 4.11, 5 C13',
+    note='Used as an executable reference under TLC (encode/decode fidelity is not a protocol).  The ASCII column and the '
+         'spacing of non-default layouts are not fixed by the statement and are not compared.',
+    technique='TLA+ transcription of hexdump/parse model-checked for the round trip in small bounds + TLC-judged results of the real functions')
+
 REASON_NOT_YET = 'check not built yet in this session (planned per DESIGN.md 5); not claimed until its TLC-judged check runs green on the unchanged tree'
 
 
